@@ -11,7 +11,24 @@
 // start and compares the observation with the tree node's (state abstraction
 // check). After EVERY transition the oracle of families.go is evaluated.
 //
-// Development knobs: C08_KNOWN_EXTRA=key1,key2; C08_ONLY=<substring of start id>.
+// Beyond the generic oracle (payload reader, relic verify, signature count,
+// is-signed probe, digesters, differential against the last operation alone)
+// a family may carry a format-specific independent view (family.Judge):
+//
+//   - rpm (rpm.go): start states written by verif/gen/rpmgen with and without
+//     RESERVEDSPACE, unsigned and signed by a third-party RSA-2048 key, a sweep
+//     of reserve sizes across the point where the new signature header stops
+//     fitting, keys of two sizes (RSA-2048, RSA-4096); judged by rpmgen.Parse
+//     (structure, alignment, every digest) + gpgv on both OpenPGP signatures +
+//     "every byte from the header structure on is the input's".
+//   - mach-o, dmg (codesign.go): the embedded signature's identifier, team
+//     identifier, flags and requirement set, which relic verify never looks
+//     at: equal to what the last operation alone leaves, and the designated
+//     requirement's decidable conjuncts hold for the signature's own
+//     CodeDirectory and CMS signer certificate. Option toggle: --bundle-id.
+//
+// Development knobs: C08_KNOWN_EXTRA=key1,key2; C08_ONLY=<substring of start id>;
+// C08_DUMP_STARTS=<dir> writes the (selected) start states to files and exits.
 package main
 
 import (
@@ -35,9 +52,18 @@ import (
 )
 
 var (
-	run *vlib.Run
-	cfg = relicx.BaseConfig("file")
+	run   *vlib.Run
+	cfg   = relicx.BaseConfig("file")
+	trust signers.VerifyOpts
+	// quietOutcomes: set while a reference is recomputed by a shard that does not own it
+	quietOutcomes bool
 )
+
+func outcome(s string) {
+	if !quietOutcomes {
+		run.Outcome(s)
+	}
+}
 
 // op is one sign operation of a family's alphabet.
 type op struct {
@@ -90,6 +116,13 @@ type family struct {
 	WantRelicCount func(fam *family, h []int) int
 	// UnreadableClass may give a narrower class name for an unreadable output
 	UnreadableClass func(fam *family, h []int, data []byte) string
+	// Judge is a second, format-specific independent view of a signed artifact
+	// (parent = the artifact the last operation was applied to, nil for a
+	// start; o = the last operation, nil for a start). items: everything in the
+	// signature that is a function of the signer and the operation's options
+	// (never of earlier signatures), compared by check (6) with what the last
+	// operation alone leaves; probs: findings of the view itself.
+	Judge func(e *env, parent, data []byte, o *op) (items map[string]string, probs []problem)
 }
 
 type sigObs struct {
@@ -104,6 +137,7 @@ type observation struct {
 	Sigs      []sigObs
 	SigItems  []string
 	NItems    int
+	Items     map[string]string
 }
 
 type node struct {
@@ -251,6 +285,7 @@ type explorer struct {
 	allow    []string
 	maxDepth int
 	wrapWant *payload.Payload
+	parent   []byte // the artifact the operation being observed was applied to
 }
 
 func (x *explorer) readPayload(path string) (*payload.Payload, error) {
@@ -308,6 +343,13 @@ func (x *explorer) checkDigests(path string, h []int, signed bool) {
 			}
 		}
 	}
+}
+
+func clipItem(s string) string {
+	if len(s) > 160 {
+		return s[:160] + "..."
+	}
+	return s
 }
 
 func clip(s string) string {
@@ -474,6 +516,17 @@ func (x *explorer) observe(path string, h []int) *observation {
 	} else {
 		run.Outcome("is-signed-true-on-output")
 	}
+	// (7) format-specific independent view
+	if fam.Judge != nil {
+		items, probs := fam.Judge(x.e, x.parent, data, &o)
+		obs.Items = items
+		for _, pr := range probs {
+			report(x.key(pr.Class), fmt.Sprintf("%s after [%s]: %s", x.st.ID, hs, pr.Desc), x.replay(h), weight)
+		}
+		if len(probs) == 0 {
+			run.Outcome("format-specific-independent-view:consistent")
+		}
+	}
 	// (4) relic's digesters
 	x.checkDigests(path, h, true)
 	return obs
@@ -555,6 +608,7 @@ func (x *explorer) step(parent *node, oi int) *node {
 		// the new artifact's payload must be the previous artifact
 		x.wrapWant = &payload.Payload{Type: fam.PType, Items: []payload.Item{{Name: "text(canonical)", Data: payload.CanonText(parent.Data)}}}
 	}
+	x.parent = parent.Data
 	obs := x.observe(path, h)
 	data, _ := os.ReadFile(path)
 	child := &node{History: h, Data: data, Obs: obs}
@@ -571,6 +625,25 @@ func (x *explorer) step(parent *node, oi int) *node {
 			}
 			if !fam.NoSigDifferential && !sameSigs(r.Sigs, obs.Sigs, o.Slot, fam.Slots) {
 				report(x.key("differential:signature-set-after-history-differs-from-single-signing"), fmt.Sprintf("%s: signatures after [%s] = %v, after [%s] alone = %v", x.st.ID, histString(fam, h), obs.Sigs, o.Name, r.Sigs), x.replay(h), weight)
+			}
+			if r.Items != nil && obs.Items != nil {
+				names := map[string]bool{}
+				for k := range r.Items {
+					names[k] = true
+				}
+				for k := range obs.Items {
+					names[k] = true
+				}
+				same := true
+				for k := range names {
+					if r.Items[k] != obs.Items[k] {
+						same = false
+						report(x.key("differential:"+k+"-after-history-differs-from-single-signing"), fmt.Sprintf("%s: %s after [%s] = %s; after [%s] alone = %s", x.st.ID, k, histString(fam, h), clipItem(obs.Items[k]), o.Name, clipItem(r.Items[k])), x.replay(h), weight)
+					}
+				}
+				if same {
+					run.Outcome("signer-dependent-items-after-history-equal-single-signing")
+				}
 			}
 		}
 	}
@@ -630,7 +703,7 @@ func (x *explorer) dfs(n *node, depth int, deadline time.Time) {
 }
 
 func exploreStart(e *env, fam *family, st *start, firstOps []int, maxDepth int, thorough bool, deadline time.Time) {
-	x := &explorer{e: e, fam: fam, st: st, trust: relicx.TrustOpts(), digest0: map[string]string{}, digest0h: map[string]string{},
+	x := &explorer{e: e, fam: fam, st: st, trust: trust, digest0: map[string]string{}, digest0h: map[string]string{},
 		ref: map[int]*observation{}, disabled: map[int]string{}, maxDepth: maxDepth}
 	if fam.MaxDepth > 0 && fam.MaxDepth < maxDepth {
 		x.maxDepth = fam.MaxDepth
@@ -669,6 +742,17 @@ func exploreStart(e *env, fam *family, st *start, firstOps []int, maxDepth int, 
 		}
 	}
 	x.checkDigests(path, nil, st.Signed)
+	if fam.Judge != nil && st.Signed {
+		// the third-party signature of a start is judged by the same view: a start it
+		// finds fault with is a harness error (generated starts) or a fixture the view
+		// does not understand, and is not explored
+		if _, probs := fam.Judge(e, nil, x.origData, nil); len(probs) > 0 {
+			fmt.Printf("HARNESS-ERROR: start %s: the format-specific independent view finds fault with the start itself: %s: %s\n", st.ID, probs[0].Class, probs[0].Desc)
+			run.Capped("start rejected by the format-specific independent view: " + st.ID)
+			return
+		}
+		run.Outcome("third-party-signed-start-consistent-under-format-specific-view")
+	}
 	root := &node{Data: x.origData}
 	// depth-1 references (every shard needs them for the differential check; they are
 	// counted once, by the shard that owns the subtree)
@@ -710,6 +794,13 @@ func exploreStart(e *env, fam *family, st *start, firstOps []int, maxDepth int, 
 							o.Sigs = append(o.Sigs, so)
 						}
 						sort.Slice(o.Sigs, func(i, j int) bool { return o.Sigs[i].Slot+o.Sigs[i].Leaf < o.Sigs[j].Slot+o.Sigs[j].Leaf })
+						if fam.Judge != nil {
+							if rd, err := os.ReadFile(p); err == nil {
+								quietOutcomes = true
+								o.Items, _ = fam.Judge(e, nil, rd, nil)
+								quietOutcomes = false
+							}
+						}
 						x.ref[oi] = o
 					}
 				}
@@ -733,6 +824,7 @@ func main() {
 	if run.Fork(16) {
 		finish()
 	}
+	addExtraKeys(cfg)
 	relicx.Use(cfg)
 	si, sn := vlib.ShardIndex()
 	base := "/dev/shm"
@@ -751,12 +843,7 @@ func main() {
 	}
 	defer py.Close()
 	e := &env{dir: dir, py: py, pgp: map[uint64]string{}}
-	trust := relicx.TrustOpts()
-	for i, ent := range trust.TrustedPgp {
-		if i < len(relicx.PGPKeys) {
-			e.pgp[ent.PrimaryKey.KeyId] = relicx.PGPKeys[i]
-		}
-	}
+	trust = trustOpts(e)
 	payload.GPGKeyring = makeKeyring(dir)
 	maxDepth := 3
 	if run.Thorough() {
@@ -764,6 +851,19 @@ func main() {
 	}
 	fams := families(run.Thorough())
 	only := os.Getenv("C08_ONLY")
+	if d := os.Getenv("C08_DUMP_STARTS"); d != "" {
+		// development aid: write the selected start states to files (for reproducers with the relic command)
+		for fi := range fams {
+			for _, st := range fams[fi].Starts {
+				if only == "" || strings.Contains(st.ID, only) {
+					name := regexp.MustCompile(`[^A-Za-z0-9.=_-]+`).ReplaceAllString(st.ID, "_") + fams[fi].Ext
+					_ = os.WriteFile(filepath.Join(d, name), st.Build(), 0o644)
+				}
+			}
+		}
+		os.RemoveAll(dir)
+		os.Exit(0)
+	}
 	deadline := time.Now().Add(27 * time.Minute)
 	// work units: (family, start, first operation); sorted by estimated cost, dealt round-robin
 	type unit struct {
@@ -842,6 +942,10 @@ func main() {
 
 func finish() {
 	run.Rule("states = (start, history) nodes whose last operation returned success, plus the starts; transitions = sign operations executed; every history up to the depth bound is explored without pruning (a subtree ends only where an operation failed or produced an unreadable artifact, which is itself reported)")
+	run.Rule("rpm: start states = Rocky fixture (third-party RSA-4096 signatures, 4.5 KiB reserve) + packages written by verif/gen/rpmgen {unsigned, RESERVEDSPACE none | 4128} + {signed by the third-party RSA-2048 key tp2k with gen/rpmgen.WithSignatures, RESERVEDSPACE none}, all to the full depth; + the same third-party-signed package with RESERVEDSPACE swept in steps of 8 bytes over [456,552] (thorough [392,616]) to depth 2, which crosses the point where two RSA-4096 signatures stop fitting (outcome classes rpm-signature-header:grew|shrank|same-size tell which were reached). Operations: keys {rsaA, rsaB (RSA-2048), rsa4k (RSA-4096)} x {sha256, sha512}. Judged after every transition by rpmgen.Parse (written from the format: lead, both header structures, padding, SHA1/SHA256/MD5/SIZE/PAYLOADSIZE), gpgv on RSAHEADER over the header structure and on PGP over header+payload (good signature by the last operation's key), and byte equality of everything from the header structure on with the input")
+	run.Rule("mach-o, dmg: operations = key {rsaA, p256B} x digest x --bundle-id {absent, org.example.c08}; after every transition an independent reader of the embedded signature (SuperBlob, CodeDirectory, requirement set, CMS) gives identifier, team identifier, flags and the raw requirement set; they must equal what the last operation alone leaves on the same start, and every top-level conjunct of the designated requirement that is decidable from the signature itself (identifier; certificate leaf[subject.*] = value against the CMS signer certificate) must hold")
+	run.Assume("mach-o/dmg: conjuncts of the designated requirement about Apple anchors, certificate extensions, Info.plist or entitlements are not evaluated, nor is anything below an `or`/`not`; --hardened-runtime is left at its default in every operation because relic documents that flags are carried over from the previous signature when the option is off")
+	run.Assume("rpm: an index entry with count 0 makes a header invalid (rpm lib/header.c hdrblobVerifyInfo rejects data length <= 0); gen/rpmgen's reader applies that rule to the signature header relic writes")
 	run.Assume("JAR: relic removes every earlier signature file when it signs (not only the alias it writes). The statement asks that the slot of the same name be replaced; dropping the other aliases is accepted, keeping them is accepted too if they still verify")
 	run.Assume("OpenPGP has no re-signing: cleartext-signing a signed document wraps it. The clearsign family checks that each signing keeps the PREVIOUS artifact intact as its message (depth <= 2)")
 	run.Assume("relic exports no content digester for apk (v2 tree), vsix (per-part digests), xar, deb, rpm, cat, appmanifest, pgp: the digest-invariance check (4) is skipped there; appx, mach-o and dmg are checked through the digests relic recorded in its own signatures (AXPC, code-directory page hashes)")
@@ -851,7 +955,7 @@ func finish() {
 
 func makeKeyring(dir string) string {
 	var ring []byte
-	for _, p := range []string{relicx.KeyDir + "/rsaA.pgp", relicx.KeyDir + "/rsaB.pgp", "/repo/functest/testkeys/ubuntu2012.pgp", "/repo/functest/testkeys/rocky9.pgp"} {
+	for _, p := range []string{relicx.KeyDir + "/rsaA.pgp", relicx.KeyDir + "/rsaB.pgp", relicx.KeyDir + "/rsa4k.pgp", relicx.KeyDir + "/" + thirdPartyKey + ".pgp", "/repo/functest/testkeys/ubuntu2012.pgp", "/repo/functest/testkeys/rocky9.pgp"} {
 		b, err := os.ReadFile(p)
 		if err != nil {
 			continue
